@@ -124,6 +124,30 @@ def gen_case(seed, idx):
     return {"cfg": ["cfg", st, au], "ops": ops}
 
 
+def fold_cases():
+    """comparison values that are the first / second reading of a repeated wall-clock hour in a rule-based zone
+    (PEP 495), against points at exactly those instants and one microsecond around them, on both paths"""
+    out = []
+    folds = [(1636264800000000 + 1800000000, "America/New_York"),      # 2021-11-07 01:30 EST (fold=1)
+             (1636264800000000 - 1800000000, "America/New_York"),      # 2021-11-07 01:30 EDT (fold=0)
+             (1635641999000000 + 1000000 + 1800000000, "Europe/London"),  # 2021-10-31 01:30 GMT (fold=1)
+             (1617463800000000 + 900000000, "Australia/Lord_Howe")]   # inside the half-hour fold of Lord Howe
+    for inst, zone in folds:
+        for st, au in (("mem", "auto"), ("mem", "noauto"), ("csv", "auto"), ("csv", "noauto")):
+            pts = [["pt", str(inst + d), hx("m1"), ["tags", [hx("k"), hx(str(d))]], ["fields"]] for d in (-1, 0, 1)]
+            ops = [["ins", "~"] + pts]
+            for c in G.CMPS:
+                q = ["time", ["cmp", c, f"t:{inst}@zi:{zone}"]]
+                ops.append(["count", q, "~"])
+                ops.append(["search", ["not", q], "~", "1"])
+            ops.append(["update", "0", ["time", ["cmp", "eq", f"t:{inst}@zi:{zone}"]], "~", ["time", ["s", f"{inst + 5}@zi:{zone}"]],
+                        ["meas", "~"], ["tags", "~"], ["fields", "~"], ["unsettags"], ["unsetfields"]])
+            ops.append(["remove", ["time", ["cmp", "eq", f"t:{inst + 5}@zi:{zone}"]], "~"])
+            ops.append(["all", "1"])
+            out.append({"cfg": ["cfg", st, au], "ops": ops})
+    return out
+
+
 def naive_checks(tf, tzname):
     """naive wall-clock values in DST gaps / folds: stored instant = independent zoneinfo conversion"""
     from datetime import datetime, timedelta, timezone
@@ -166,7 +190,7 @@ def worker(seed, tier, model_ok):
     _time.tzset()
     tf = C.import_tinyflux()
     n = 700 if tier == "quick" else 40000
-    cases = [gen_case(seed * 1000003 + i, i) for i in range(n)]
+    cases = fold_cases() + [gen_case(seed * 1000003 + i, i) for i in range(n)]
     probes = [["timestamps", "~"], ["valid"]]
     b = D.Batch(use_model=model_ok, use_spec=True, probes=probes, with_rebuild=True)
     results = []
